@@ -1,3 +1,4 @@
 #!/bin/sh
-# stops running checks / mutant runs / TLC started from this workspace (never by pattern on the caller's own command line)
-for p in $(pgrep -f 'tools/mutant.py|/check C[0-9]|tlc2.TLC'); do [ "$p" != "$$" ] && kill "$p" 2>/dev/null; done; exit 0
+# stops running checks / mutant runs / TLC started from this workspace; never the caller's own shell(s)
+skip=" $$ $PPID $(ps -o ppid= -p $PPID 2>/dev/null | tr -d ' ') "
+for p in $(pgrep -f 'tools/mutant.py|bin/python ./check C[0-9]|tlc2.TLC'); do case "$skip" in *" $p "*) ;; *) kill "$p" 2>/dev/null;; esac; done; exit 0
